@@ -406,7 +406,7 @@ class KaniCheck:
 
 PLAYBACK_BLOCK = re.compile(
     r"^[ \t]*/// Test generated for harness `([^`]+)`[ \t]*\n[ \t]*///[ \t]*\n[ \t]*/// Check for `(\w+)`: ([^\n]*)\n"
-    r"(?:[ \t]*///[^\n]*\n|[ \t]*\n)*[ \t]*#\[test\][ \t]*\n[ \t]*fn (\w+)\(\s*\) \{.*?kani::concrete_playback_run\([^\n]*\n[ \t]*\}[ \t]*\n",
+    r"(?:[ \t]*///[^\n]*\n|[ \t]*\n)*[ \t]*#\[test\][ \t]*\n[ \t]*fn (\w+)\(\s*\)\s*\{.*?kani::concrete_playback_run\(.*?\);\s*\}[ \t]*\n",
     re.S | re.M)
 
 
